@@ -52,6 +52,8 @@ def descriptions(tier):
                         for extra in (None, 'dict', 'scalar'):
                             if extra is not None and tier == 'quick' and ((P == 1 and nd != 2) or P == 3):
                                 continue
+                            if extra is not None and P == 3 and len(things) > 3:
+                                continue
                             parts = []
                             for i in range(P):
                                 d = {'datasets': {}}
